@@ -266,6 +266,9 @@ class Contract:
     def regex_matches(self, rx, s):
         return z3.Function(f"MATCHES_{rx}", z3.StringSort(), z3.BoolSort())(s)
 
+    def regex_start(self, rx, g, s):
+        return z3.Function(f"MATCH_START_{g}", z3.StringSort(), z3.IntSort())(s)
+
     def regex_group(self, rx, g, s):
         return z3.Function(f"GROUP_{rx}_{g}", z3.StringSort(), z3.StringSort())(s)
 
